@@ -438,7 +438,7 @@ ocp.set_der(v, a)
         ubs = defaultdict(list)
         canons = defaultdict(list)
         for c, meta, args in stage._constraints["control"]:
-            key = (args["refine"],args["group_refine"])
+            key = (args["refine"],args["group_refine"],args["include_first"],args["include_last"])
             (lb,canon,ub), mc = self.constraint_inspector.canon(c)
 
             lbs[key].append(lb)
@@ -449,7 +449,7 @@ ocp.set_der(v, a)
 
         # Loop over lumps
         for k in keys:
-            (refine,group_refine) = k
+            (refine,group_refine,include_first,include_last) = k
             lb = ca.vcat(lbs[k])
             ub = ca.vcat(ubs[k])
             canon = ca.vcat(canons[k])
@@ -459,6 +459,8 @@ ocp.set_der(v, a)
             canon_sym = MX.sym("canon_sym",canon.size1(),refine)
             # Do a grouping along refinement grid if requested
             if group_refine:
+                if not (include_first and include_last):
+                    raise Exception("include_first=False/include_last=False cannot be combined with group_refine")
                 assert not ca.depends_on(canon, stage.t)
 
                 # lb <= canon <= ub
@@ -488,6 +490,8 @@ ocp.set_der(v, a)
                     self.opti.subject_to(self.eval(stage, results_max <= ub))
                     self.opti.subject_to(self.eval(stage, results_end <= ub))
             else:
+                # Leave out the first/last grid point when the constraint was declared so
+                results = results[:, (0 if include_first else 1):(results.shape[1] if include_last else results.shape[1]-1)]
                 n = results.shape[1]
                 lb = ca.repmat(lb,1,n)
                 ub = ca.repmat(ub,1,n)
